@@ -8,6 +8,11 @@ ALL = ["C%02d" % i for i in range(1, 21)]
 
 # pid -> (category, level text, level note, technique, design_ref)
 CHECKS = {
+ "C02": ("proof",
+         "The audition round machine (checkEvent, checkEventForAuditor, processAssignments, checkExpect, checkActivationPeriodEnd, setAndActivateVar, processMoodChange, checkFinal) is an executable Gallina model (Model/Audit.v over an expression evaluator Model/Expr.v and the translated FSM tables). Theorems, for every configuration, auditor and event history of any length: the emitted outputs follow the period grammar (Start Report* Report_end Stop)* of Model/AuditSpec.v — reports only inside periods, each period judged by a fresh evaluator from the table's start state (independence), exactly one end-of-period judgement right before Stop; when the history ends with the end of the play every period is closed; the auditing flag follows the sampled activation condition; outside periods nothing is output or written. Proved by a simulation invariant between the model state and the grammar state, lifted through visits, rounds, mood changes and the event loop. Tied to the code on every run: 400 (thorough 8000) generated audiences x histories run through the real audition via a hook; every emitted report/observation/start/stop is compared per round with the model (vm_compute) and, independently of the model, with a period oracle (alternation, closure, NFA check that each period's codes are producible by a fresh evaluator, expected period boundaries for throughout/mood/signal conditions).",
+         "Trusted: Coq kernel+VM, harness+hook, generator's two printers (govaluate syntax / Coq AST) agreeing. Modelled not verified: govaluate semantics for the generated subset, float64 as exact rationals, buffered channel sends. Theorem c02_every_period_closed assumes no evaluation error aborted the audition.",
+         "Rocq/Coq proof: simulation invariant (model state vs period grammar) by induction over visits/rounds/events; differential correspondence + independent period oracle by vm_compute",
+         "DESIGN.md section 6, C02"),
  "C01": ("proof",
          "The transition tables of pred_fsm.go are translated to Coq on every run (gofsm2v over go/ast); a reflective, certificate-based automaton-equivalence checker (soundness proved once, Base/Dfa.v) shows by vm_compute that every registered table, composed with the hand-modelled report/reset logic of processFsmStateChange, is equivalent to a monitor that is proved (induction on the trace) to decide the modality's plain meaning — hence for observation sequences of every length: disappointment iff the meaning is violated, no crash, satisfaction at the end of a period without disappointment, and exactly the ten names are accepted. The hand-modelled glue is tied by running the real parseAuditWhen/startOfAuditPeriod/processFsmStateChange on all traces up to a length bound plus random long ones and raw label sequences, compared in Coq with the model and with the meaning oracle. A failing obligation triggers a shortest-counterexample search over the product automaton, replayed on the real code.",
          "Trusted: Coq kernel+VM, the translator (refuses unknown constructs), the harness/hook. Modelled by hand: classification of states by name, reset after bad, panics on unknown labels/indices. Reading of 'eventually always' as false^i true^(j+1).",
